@@ -89,6 +89,9 @@ Until(st, i, s) ==
 
 EvalStmt(st, s) ==
   CASE s.s = "array" -> st                                   \* declared when the flush starts (see Declare)
+    \* a classical register the application asks for and keeps (it holds its value across flushes until the application
+    \* changes it; other operations' temporaries and counters may not touch it)
+    [] s.s = "hold" -> [st EXCEPT !.regs[s.h] = Def(s.v)]
     [] s.s = "qubit" ->
          IF s.vid \in st.alive THEN Fault(st, "already-allocated")
          ELSE [st EXCEPT !.alive = @ \cup {s.vid}, !.glog = Append(@, <<"init", <<s.vid>>, << >>>>)]
